@@ -480,6 +480,136 @@ theorem session_end_stops_all (s : Sess) :
   simp [Sess.step]
   intro n hn; exact Or.inr hn
 
+/-! ## Call sites with the chain attached: every stop reaches every CloseProxy plugin, whatever any
+       plugin answers, in every map order and every schedule of the notification goroutines -/
+
+/-- what C15 demands of the notifications of a session: for the proxies `stopped` (in stop order)
+    the `Handle(CloseProxy)` calls are, per proxy, one call to every plugin registered for CloseProxy
+    with that proxy's content -/
+def notifySpec (R : List (Plugin C)) (mk : Str → C) (stopped : List Str) : List (Seen C) :=
+  stopped.flatMap (fun n => R.map (fun p => (p.id, mk n)))
+
+/-- one notification goroutine calls every plugin of the chain on its own content, whatever the
+    plugins answer (error, reject, anything) -/
+theorem notifyGo_spec (R : List (Plugin C)) (mk : Str → C) (n : Str) :
+    notifyGo R mk n = R.map (fun p => (p.id, mk n)) :=
+  closeLoop_consulted R (mk n)
+
+/-- the bookkeeping of `SessP` is that of `Sess` (so `notified_eq_stopped` speaks about it too) -/
+theorem sessP_erase (R : List (Plugin C)) (mk : Str → C) (ops : List SessOp) :
+    (SessP.run R mk {} ops).proxies = (Sess.run {} ops).proxies ∧
+    (SessP.run R mk {} ops).stopped = (Sess.run {} ops).stopped := by
+  suffices h : ∀ (s : SessP C) (t : Sess), s.proxies = t.proxies → s.stopped = t.stopped →
+      (SessP.run R mk s ops).proxies = (Sess.run t ops).proxies ∧
+      (SessP.run R mk s ops).stopped = (Sess.run t ops).stopped from h {} {} rfl rfl
+  induction ops with
+  | nil => intro s t h1 h2; exact ⟨h1, h2⟩
+  | cons o os ih =>
+    intro s t h1 h2
+    simp only [SessP.run, Sess.run, List.foldl_cons]
+    cases o with
+    | newProxy n =>
+      apply ih <;> simp only [SessP.step, Sess.step, h1] <;> split <;> simp [h1, h2]
+    | closeProxy n =>
+      apply ih <;> simp only [SessP.step, Sess.step, h1] <;> split <;> simp [h1, h2]
+    | sessionEnd => apply ih <;> simp [SessP.step, Sess.step, h1, h2]
+
+/-- **One notification goroutine per stop, each complete**: for every history of a session, every
+    chain and ALL handler functions, the goroutines started are — in stop order — exactly one per
+    stopped proxy (explicit close or session end), and each one calls the whole chain. -/
+theorem sessP_notes (R : List (Plugin C)) (mk : Str → C) (ops : List SessOp) :
+    (SessP.run R mk {} ops).notes =
+      (SessP.run R mk {} ops).stopped.map (fun n => R.map (fun p => (p.id, mk n))) := by
+  suffices h : ∀ s : SessP C, s.notes = s.stopped.map (fun n => R.map (fun p => (p.id, mk n))) →
+      (SessP.run R mk s ops).notes =
+        (SessP.run R mk s ops).stopped.map (fun n => R.map (fun p => (p.id, mk n))) from h {} rfl
+  induction ops with
+  | nil => intro s h; exact h
+  | cons o os ih =>
+    intro s h
+    simp only [SessP.run, List.foldl_cons]
+    apply ih
+    cases o with
+    | newProxy n => simp only [SessP.step]; split <;> exact h
+    | closeProxy n =>
+      simp only [SessP.step]
+      split
+      · simp [h, notifyGo_spec]
+      · exact h
+    | sessionEnd =>
+      simp only [SessP.step, h, List.map_append]
+      congr 1
+      apply List.map_congr_left
+      intro n _
+      exact notifyGo_spec R mk n
+
+/-- **All map orders, all schedules.** Whatever order `worker` ranges over `ctl.proxies` in (the
+    goroutines `gs` are any permutation of the model's), and however the goroutines interleave,
+    the calls received are a permutation of `notifySpec`: nothing lost, nothing twice. -/
+theorem notify_all_schedules (R : List (Plugin C)) (mk : Str → C) (ops : List SessOp)
+    (gs : List (List (Seen C))) (out : List (Seen C))
+    (hgs : gs.Perm (SessP.run R mk {} ops).notes) (hrun : ListW.Interleave gs out) :
+    out.Perm (notifySpec R mk (SessP.run R mk {} ops).stopped) := by
+  have h1 := hrun.perm
+  have h2 := hgs.flatten
+  rw [sessP_notes] at h2
+  unfold notifySpec
+  rw [List.flatMap_def]
+  exact h1.trans h2
+
+/-- **Every proxy that stopped reaches every plugin registered for CloseProxy** — also the plugins
+    behind one that fails, and also the proxies whose goroutine comes after a failed notification. -/
+theorem every_stop_reaches_every_plugin (R : List (Plugin C)) (mk : Str → C) (ops : List SessOp)
+    (gs : List (List (Seen C))) (out : List (Seen C))
+    (hgs : gs.Perm (SessP.run R mk {} ops).notes) (hrun : ListW.Interleave gs out) :
+    ∀ n ∈ (SessP.run R mk {} ops).stopped, ∀ p ∈ R, (p.id, mk n) ∈ out := by
+  intro n hn p hp
+  rw [(notify_all_schedules R mk ops gs out hgs hrun).mem_iff]
+  unfold notifySpec
+  exact List.mem_flatMap.2 ⟨n, hn, List.mem_map.2 ⟨p, hp, rfl⟩⟩
+
+/-- within one notification the plugins are called in chain order, in every schedule -/
+theorem notify_chain_order (R : List (Plugin C)) (mk : Str → C) (ops : List SessOp)
+    (gs : List (List (Seen C))) (out : List (Seen C))
+    (hgs : gs.Perm (SessP.run R mk {} ops).notes) (hrun : ListW.Interleave gs out) :
+    ∀ n ∈ (SessP.run R mk {} ops).stopped, (R.map (fun p => (p.id, mk n))).Sublist out := by
+  intro n hn
+  apply hrun.sublist
+  rw [hgs.mem_iff, sessP_notes]
+  exact List.mem_map.2 ⟨n, hn, rfl⟩
+
+/-- the notifications do not depend on what any plugin answers: two chains with the same ids but
+    arbitrary different handlers start the same goroutines making the same calls -/
+theorem notes_handler_independent (R R' : List (Plugin C)) (mk : Str → C) (ops : List SessOp)
+    (hid : R.map (·.id) = R'.map (·.id)) :
+    (SessP.run R mk {} ops).notes = (SessP.run R' mk {} ops).notes := by
+  rw [sessP_notes, sessP_notes, (sessP_erase R mk ops).2, (sessP_erase R' mk ops).2]
+  apply List.map_congr_left
+  intro n _
+  have h1 : R.map (fun p => (p.id, mk n)) = (R.map (·.id)).map (fun i => (i, mk n)) := by
+    simp [List.map_map]
+  have h2 : R'.map (fun p => (p.id, mk n)) = (R'.map (·.id)).map (fun i => (i, mk n)) := by
+    simp [List.map_map]
+  rw [h1, h2, hid]
+
+/-- executable predicate for the `Handle(CloseProxy)` calls a real server's plugins received during
+    a session whose stopped proxies were `stopped` (run by the driver on the implementation's wire) -/
+def notifyHoldsOn [DecidableEq C] (R : List (Plugin C)) (mk : Str → C) (stopped : List Str)
+    (obs : List (Seen C)) : Bool :=
+  obs.isPerm (notifySpec R mk stopped)
+
+theorem notifyHoldsOn_sound [DecidableEq C] (R : List (Plugin C)) (mk : Str → C) (stopped : List Str)
+    (obs : List (Seen C)) :
+    notifyHoldsOn R mk stopped obs = true ↔ obs.Perm (notifySpec R mk stopped) :=
+  List.isPerm_iff
+
+/-- the model satisfies it for every history, map order and schedule -/
+theorem model_notifyHoldsOn [DecidableEq C] (R : List (Plugin C)) (mk : Str → C) (ops : List SessOp)
+    (gs : List (List (Seen C))) (out : List (Seen C))
+    (hgs : gs.Perm (SessP.run R mk {} ops).notes) (hrun : ListW.Interleave gs out) :
+    notifyHoldsOn R mk (SessP.run R mk {} ops).stopped out = true :=
+  (notifyHoldsOn_sound R mk _ out).2 (notify_all_schedules R mk ops gs out hgs hrun)
+
 /-! ## Non-vacuity -/
 
 section examples
@@ -527,6 +657,37 @@ example : (gated .login [pHttpNull 1] ⟨[3], []⟩).1 = .panic := rfl
 -- session: two proxies, one closed explicitly, the other by session end: both notified
 example : (Sess.run {} [.newProxy [1], .newProxy [2], .closeProxy [1], .closeProxy [1], .sessionEnd]).notified
     = [[1], [2]] := by decide
+
+-- session end with three proxies and a chain whose FIRST plugin always fails: three goroutines,
+-- each still calls both plugins (the failure of one notification does not touch the others)
+def mkC (user : Str) (n : Str) : Content := ⟨n, user⟩
+example : (SessP.run [pErr 1, pApp 2 0] (mkC [9]) {}
+      [.newProxy [1], .newProxy [2], .newProxy [3], .closeProxy [2], .sessionEnd]).notes =
+    [[(1, ⟨[2], [9]⟩), (2, ⟨[2], [9]⟩)], [(1, ⟨[1], [9]⟩), (2, ⟨[1], [9]⟩)], [(1, ⟨[3], [9]⟩), (2, ⟨[3], [9]⟩)]] := by
+  decide +kernel
+-- a plugin that fails for one proxy name only (transient / content dependent failure)
+def pErrIf1 (id : Nat) : Plugin Content :=
+  { id := id, ops := [Op.closeProxy.name]
+    handle := fun _ c => if [1].isSuffixOf c.a then .err else .resp false [] true none }
+example : (closeAll [pErrIf1 1, pApp 2 0] (mkC [9] [1])).1 = .errs [1] ∧
+    (closeAll [pErrIf1 1, pApp 2 0] (mkC [9] [3])).1 = .ok := by decide +kernel
+-- the hypotheses of `notify_all_schedules` are met by a schedule that is neither sequential nor in
+-- start order: goroutines of proxies [1] and [3], chain of two plugins, run 3.1 1.1 1.2 3.2
+example : ListW.Interleave
+    [[(1, mkC [9] [3]), (2, mkC [9] [3])], [(1, mkC [9] [1]), (2, mkC [9] [1])]]
+    [(1, mkC [9] [3]), (1, mkC [9] [1]), (2, mkC [9] [1]), (2, mkC [9] [3])] :=
+  .step [] [_] _ _ _ (.step [_] [] _ _ _ (.step [_] [] _ _ _ (.step [] [_] _ _ _
+    (.done _ (by intro g hg; simpa using hg)))))
+example : [[(1, mkC [9] [3]), (2, mkC [9] [3])], [(1, mkC [9] [1]), (2, mkC [9] [1])]].Perm
+    (SessP.run [pErrIf1 1, pApp 2 0] (mkC [9]) {} [.newProxy [1], .newProxy [3], .sessionEnd]).notes := by
+  have : (SessP.run [pErrIf1 1, pApp 2 0] (mkC [9]) {} [.newProxy [1], .newProxy [3], .sessionEnd]).notes =
+      [[(1, mkC [9] [1]), (2, mkC [9] [1])], [(1, mkC [9] [3]), (2, mkC [9] [3])]] := by decide +kernel
+  rw [this]; exact List.Perm.swap _ _ _
+-- the executable predicate tells a run where the notifications behind the failed one are missing
+example : notifyHoldsOn [pErrIf1 1, pApp 2 0] (mkC [9]) [[1], [3]]
+    [(1, mkC [9] [1]), (2, mkC [9] [1])] = false := by decide +kernel
+example : notifyHoldsOn [pErrIf1 1, pApp 2 0] (mkC [9]) [[1], [3]]
+    [(1, mkC [9] [3]), (1, mkC [9] [1]), (2, mkC [9] [1]), (2, mkC [9] [3])] = true := by decide +kernel
 
 end examples
 
